@@ -5,6 +5,8 @@ mod raw_connector;
 use bincode::{Decode, Encode};
 
 pub use crate::dictionary::connector::dual_connector::DualConnector;
+#[cfg(vibrato_verif)]
+pub(crate) use crate::dictionary::connector::dual_connector::VERIF_ORDER_SEED;
 pub use crate::dictionary::connector::matrix_connector::MatrixConnector;
 pub use crate::dictionary::connector::raw_connector::RawConnector;
 use crate::dictionary::mapper::ConnIdMapper;
